@@ -295,6 +295,12 @@ WrapRet0 ==
 \* (callable between yylex() calls, from actions and from yywrap)
 BufPhase == phase \in {"out", "done", "act", "wrap"}
 
+\* the environment: source f is opened again (same FILE / stream object, its content available once more)
+Reopen(f, bytes) ==
+  /\ f >= 1 /\ f <= Len(files)
+  /\ files' = [files EXCEPT ![f] = bytes]
+  /\ UNCHANGED <<rs, inited, opt, yyin, cur, bstack, saved, fid, fresh, buf, eof, bol, cvars, lineno, kvars, phase, wfrom, switched, hist>>
+
 SetYyin(f) ==
   /\ yyin' = f
   /\ UNCHANGED <<rs, inited, opt, files, cur, bstack, saved, fid, fresh, buf, eof, bol, cvars, lineno, kvars, phase, wfrom, switched, hist>>
